@@ -411,7 +411,7 @@ func TestC12(t *testing.T) {
 			"Non-trivial = anything but well-formed raw float32/int64 (the only path the sample models reach); distinct = (data_type, dims, encoding, malformation, value bits).",
 		"oracle: round trip through the harness's encoder, bit-exact; malformed or unrepresentable inputs must give a non-nil error (a tensor or a panic is a violation)")
 	defer reportKnownFindings("C12")
-	check(t, "decode", 20000, 200000, c12Prop)
+	check(t, "decode", 60000, 300000, c12Prop)
 }
 
 func init() {
